@@ -386,7 +386,8 @@ def section(rec, k, line=None, node=None, value=None):
     for nm, body in sorted(rec["state"].items()):
         lines.append(("#define %s %s" % (nm, body)).rstrip())
     if node is not None:
-        lines.append("#if " + E.render(["bin", "==", ["par", node], value], 2))
+        # (rendered as densely as the original condition: blanks between tokens can matter to a string-based expander)
+        lines.append("#if " + E.render(["bin", "==", ["par", node], value], 2, tight=bool(rec.get("tight"))))
     else:
         ln = line if line is not None else rec["text"]
         ln = re.sub(r"^(\s*#\s*)el(if|ifdef|ifndef)\b", lambda m: m.group(1) + m.group(2), ln)
@@ -399,7 +400,7 @@ def canonical_line(rec):
     w = rec["word"].replace("el", "", 1) if rec["word"].startswith("el") else rec["word"]
     if rec["kind"] == "ifdef":
         return "#%s %s" % (w, rec["name"])
-    return "#if " + E.render(rec["node"], 2, tight=False)
+    return "#if " + E.render(rec["node"], 2, tight=bool(rec.get("tight")))
 
 
 def plain(v):
@@ -727,8 +728,6 @@ def spelling_feats(c):
         feats.append("tab")
     if re.search(r"\s$", t):
         feats.append("trailing-space")
-    if c["kind"] == "if" and c.get("tight"):
-        feats.append("tight-expression")
     return "+".join(feats) or "other"
 
 
